@@ -463,34 +463,34 @@ func ruleIndexBound(c *eng.Ctx) {
 					return isM && m == 2
 				})
 				if !even {
-				// the dictionary may be read (and /Index validated) by another function of the cluster that hands the
-				// validated array on: accept an odd-length rejection there
-				for _, h := range eng.Cluster(c.P.Func("core.(*XRefParser).parseXRefStream"), 2) {
-					if h == fn {
-						continue
-					}
-					eng.Instrs(h, false, func(in2 ssa.Instruction) {
-						b, ok := in2.(*ssa.BinOp)
-						if !ok || (b.Op != token.EQL && b.Op != token.NEQ) {
-							return
+					// the dictionary may be read (and /Index validated) by another function of the cluster that hands the
+					// validated array on: accept an odd-length rejection there
+					for _, h := range eng.Cluster(c.P.Func("core.(*XRefParser).parseXRefStream"), 2) {
+						if h == fn {
+							continue
 						}
-						rem, isRem := b.X.(*ssa.BinOp)
-						k, isC := eng.ConstInt(b.Y)
-						if !isRem || rem.Op != token.REM || !isC || k != 0 {
-							return
-						}
-						if m, isM := eng.ConstInt(rem.Y); !isM || m != 2 {
-							return
-						}
-						if call, ok := rem.X.(*ssa.Call); ok && eng.CalleeName(call) == "builtin:len" {
-							if _, isIf := lastIf(b.Block()); isIf {
-								even = true
+						eng.Instrs(h, false, func(in2 ssa.Instruction) {
+							b, ok := in2.(*ssa.BinOp)
+							if !ok || (b.Op != token.EQL && b.Op != token.NEQ) {
+								return
 							}
-						}
-					})
+							rem, isRem := b.X.(*ssa.BinOp)
+							k, isC := eng.ConstInt(b.Y)
+							if !isRem || rem.Op != token.REM || !isC || k != 0 {
+								return
+							}
+							if m, isM := eng.ConstInt(rem.Y); !isM || m != 2 {
+								return
+							}
+							if call, ok := rem.X.(*ssa.Call); ok && eng.CalleeName(call) == "builtin:len" {
+								if _, isIf := lastIf(b.Block()); isIf {
+									even = true
+								}
+							}
+						})
+					}
 				}
-			}
-			c.Check(even, R, "core.(*XRefParser).parseXRefStream#index-pairs", ia.Pos(), "/Index is read in pairs only after len%2 == 0", "/Index[i+1] is read without checking that the array has an even length: an odd /Index panics")
+				c.Check(even, R, "core.(*XRefParser).parseXRefStream#index-pairs", ia.Pos(), "/Index is read in pairs only after len%2 == 0", "/Index[i+1] is read without checking that the array has an even length: an odd /Index panics")
 			})
 		}
 		// w[i] stores
